@@ -118,12 +118,19 @@ static int gen_poly(Poly *P, int i, int quick) {
                   if (hrev) for (int k = 0; k < hn / 2; k++) { LatLng t = P->hole[0][k]; P->hole[0][k] = P->hole[0][hn - 1 - k]; P->hole[0][hn - 1 - k] = t; }
                   for (int k = 0; k < hn; k++) if (fabs(P->hole[0][k].lat) > g_latmax) return 1;
                   P->holes[0].numVerts = hn; P->holes[0].verts = P->hole[0]; nh = 1; break; }
+        case 14: { /* a frame: the hole is the outer loop shrunk about its centre, leaving a wall 0.1 .. 1.5 cell edges wide; the cells of the wall are
+                      reached from the traced edges only, and every edge (of the outer loop and of the hole, in either direction) has to be traced */
+                  P->kind = "frame"; n = 4 + (int)vt_randn(8); if (make_loop(P->outer, n, lat0, lng0, r, 0.9, 0.5 + 0.5 * vt_rand01(), vt_rand01() * 6.28, rev)) return 1;
+                  P->res = pick_res_for(r * 0.7, target < 120 ? 120 : target); double e = edge_rads(P->res); double f = 1 - e * (0.1 + 1.4 * vt_rand01()) / r; if (f < 0.5) return 1;
+                  int hrev = (int)vt_randn(2);
+                  for (int k = 0; k < n; k++) { int idx = hrev ? n - 1 - k : k; double d = wrap_lng(P->outer[idx].lng - lng0); P->hole[0][k].lat = lat0 + f * (P->outer[idx].lat - lat0); P->hole[0][k].lng = wrap_lng(lng0 + f * d); }
+                  P->holes[0].numVerts = n; P->holes[0].verts = P->hole[0]; nh = 1; break; }
         default: { /* the boundary of a cell (or of a coarser ancestor) as the polygon: edges run exactly along cell edges */
                   P->kind = "cellshape"; int res = (int)vt_randn(14); LatLng g0 = {lat0, lng0}; H3Index c; if (latLngToCell(&g0, res, &c)) return 1; CellBoundary cb; if (cellToBoundary(c, &cb)) return 1;
                   n = cb.numVerts; for (int k = 0; k < n; k++) { P->outer[k] = cb.verts[k]; if (fabs(cb.verts[k].lat) > 1.48) return 1; } P->res = res + (int)vt_randn(3); if (P->res > 15) P->res = 15; { PLoop t; ploop_from(P->outer, n, &t); int ok = t.closes; ploop_free(&t); if (!ok) return 1; } break; }
     }
     P->g.geoloop.numVerts = n; P->g.geoloop.verts = P->outer; P->g.numHoles = nh;
-    if (kind != 5 && kind != 8 && kind != 9 && kind != 12 && kind != 13) P->res = pick_res_for(kind == 4 ? r * 0.15 : r * 0.7, target);
+    if (kind != 5 && kind != 8 && kind != 9 && kind != 12 && kind != 13 && kind != 14) P->res = pick_res_for(kind == 4 ? r * 0.15 : r * 0.7, target);
     /* keep the width well below 180 degrees */
     PLoop t; ploop_from(P->outer, n, &t); int bad = !t.closes || (t.maxx - t.minx) > 2.4; ploop_free(&t);
     return bad;
@@ -263,9 +270,9 @@ int main(int argc, char **argv) {
     /* polygons made from cell boundaries: edges and vertices coincide with those of the cells being tested (touching contacts) */
     g_force_kind = 9; for (int i = 0; i < (quick ? 160 : 1500); i++) { Poly P; if (gen_poly(&P, i, quick)) continue; fill_event(&P, maxcand); } g_force_kind = -1;
     /* concave features: wedges cut into the rim, parallel bands of holes whose bounding boxes overlap */
-    for (int i = 0; i < (quick ? 90 : 900); i++) { Poly P; g_force_kind = i % 4 == 3 ? 13 : 10 + (i % 3 != 0); if (gen_poly(&P, i, quick)) continue; fill_event(&P, maxcand); } g_force_kind = -1;
+    for (int i = 0; i < (quick ? 110 : 1100); i++) { Poly P; g_force_kind = i % 5 == 4 ? 14 : i % 4 == 3 ? 13 : 10 + (i % 3 != 0); if (gen_poly(&P, i, quick)) continue; fill_event(&P, maxcand); } g_force_kind = -1;
     /* on the antimeridian: polygons with holes (next to, across and away from it), notches, slivers, pockets */
-    { static const int KS[] = {6, 7, 8, 11, 10, 13, 6, 11}; for (int j = 0; j < (quick ? 64 : 640); j++) { Poly P; g_force_kind = KS[j % 8]; if (gen_poly(&P, 8 * j + 1, quick)) continue; fill_event(&P, maxcand); } g_force_kind = -1; }
+    { static const int KS[] = {6, 7, 8, 11, 10, 13, 6, 11, 14, 14}; for (int j = 0; j < (quick ? 90 : 800); j++) { Poly P; g_force_kind = KS[j % 10]; if (gen_poly(&P, 8 * j + 1, quick)) continue; fill_event(&P, maxcand); } g_force_kind = -1; }
     /* every boundary segment of the pentagons (10 segments at odd resolutions), of their neighbours and of cells cut by icosahedron edges */
     for (int res = 1; res <= (quick ? 5 : 11); res++) { H3Index pp[12]; getPentagons(res, pp); CellVec cv = {0};
         for (int q = 0; q < 12; q++) { if (quick && (res % 2 == 0) && q % 3) continue; cv_push(&cv, pp[q]); H3Index d[7] = {0}; gridDisk(pp[q], 1, d); cv_push(&cv, d[1 + vt_randn(5)]); }
